@@ -2,7 +2,7 @@
    a fake KeysAPI with every call gated, snowflake) and of the real
    Topology.NextVolumeId over a fake raft server, against model/Seq.v. *)
 From Coq Require Import List NArith Bool Arith.
-From SW Require Export base.Verdict model.Seq.
+From SW Require Export base.Verdict model.Seq model.SeqGrow.
 Import ListNotations.
 Local Open Scope N_scope.
 
@@ -14,11 +14,18 @@ Inductive input :=
 | IVol (sched : list vstep)                      (* Topology.NextVolumeId + heartbeats *)
 | ISnowBurst (nid first : N) (deltas : list N)   (* one node, NextFileId(1) back to back: first id and the
                                                     successive differences (out is left empty) *)
-| IStress (kind : N) (total : N).                (* goroutine stress (thorough tier): ranges sorted by start *)
+| IStress (kind : N) (total : N)                 (* goroutine stress (thorough tier): ranges sorted by start *)
+| IGrow (nact copies : nat) (sched : list gop).  (* nact goroutines run the real GrowByCountAndType against one
+                                                    Topology; the schedule is what the harness scheduler did and saw *)
 
 (* out: what the implementation returned at every step (None: nothing returned);
    fin: projection of the implementation's final state *)
-Record case := { inp : input; out : list (option ev); fin : list N }.
+(* concurrent growth (IGrow): gout = what the implementation showed at every step
+   (the raft proposal at GRead, the volume id sent to the volume servers at GApply,
+   the heartbeat's volume at GHb); gal = every AllocateVolume request (request, id),
+   sorted by id; fin = max volume id, then the counter every request returned *)
+Record case := { inp : input; out : list (option ev); fin : list N;
+                 gout : list (option gev); gal : list (nat * N) }.
 
 Definition ev_eqb (a b : ev) : bool :=
   match a, b with
@@ -112,6 +119,33 @@ Fixpoint sum_counts (l : list ev) : N :=
   | Ret _ _ c :: l' => c + sum_counts l'
   | _ :: l' => sum_counts l'
   end.
+
+(* ---- concurrent growth ---- *)
+Definition gev_eqb (a b : gev) : bool :=
+  match a, b with
+  | EProp m v, EProp m' v' => Nat.eqb m m' && (v =? v')
+  | EGrant m v, EGrant m' v' => Nat.eqb m m' && (v =? v')
+  | ESeen v, ESeen v' => v =? v'
+  | _, _ => false
+  end.
+Definition ogev_eqb (a b : option gev) : bool :=
+  match a, b with
+  | Some x, Some y => gev_eqb x y
+  | None, None => true
+  | _, _ => false
+  end.
+Definition alloc_eqb (x y : nat * N) : bool := Nat.eqb (fst x) (fst y) && (snd x =? snd y).
+(* GrowByCountAndType's counter: len(servers) for every iteration that went through *)
+Fixpoint gcount (copies : N) (a : nat) (sched : list gop) (outs : list (option gev)) : N :=
+  match sched, outs with
+  | GApply b GOk :: sched', Some (EGrant _ _) :: outs' =>
+      (if Nat.eqb a b then copies else 0) + gcount copies a sched' outs'
+  | _ :: sched', _ :: outs' => gcount copies a sched' outs'
+  | _, _ => 0
+  end.
+(* an AllocateVolume request carries an id that was handed to that request *)
+Definition alloc_granted (tr : list gev) (x : nat * N) : bool :=
+  existsb (fun e => match e with EGrant a v => Nat.eqb a (fst x) && (v =? snd x) | _ => false end) tr.
 
 (* ---- narrowed triggers ---- *)
 Definition actor_of (e : ev) : nat := match e with Ret m _ _ => m | Max m _ => m end.
@@ -208,6 +242,21 @@ Definition check (c : case) : outcome :=
                    else true;
          o_trig := None;
          o_nontrivial := Nat.leb 2 (length (rets (out c))) |}
+  | IGrow nact copies sched =>
+      (* the LOCKED machine must admit what was seen: same proposal, same grant at every step *)
+      let '(sf, outs) := grow_run true (ginit nact 0) sched in
+      let tr := somes (gout c) in
+      {| o_corr := all2 ogev_eqb outs (gout c) &&
+                   all2 N.eqb (gmax sf :: map (fun a => gcount (N.of_nat copies) a sched outs) (seq 0 nact)) (fin c) &&
+                   all2 alloc_eqb (gallocs copies sched outs) (gal c);
+         (* on the implementation's observables: ids handed out strictly increasing (never twice),
+            every proposal above everything granted or reported before, and every id a
+            volume server was asked to allocate was handed to that request *)
+         o_prop := if gfits true (ginit nact 0) sched
+                   then gtrace_okb tr && forallb (alloc_granted tr) (gal c)
+                   else true;
+         o_trig := None;
+         o_nontrivial := Nat.leb 2 (length (grants (gout c))) |}
   | IStress kind total =>
       let tr := somes (out c) in
       {| o_corr := match kind with
